@@ -30,8 +30,34 @@ A second, fake-free run drives a real working tree / branch / repository stack
 with real LockDirs and applies the same oracle to is_locked(), the lock counts
 and get_physical_lock_status().
 
-Mutants this was built against: see the end of this docstring (filled in by
-the mutation self-test).
+The unchanged code violates the property in one way (reported, families
+`branch-over-unlock-releases-repository`, `tree-over-unlock-releases-branch`):
+BzrBranch.unlock / (DirState)WorkingTree.unlock of an object that is NOT locked
+raise LockNotHeld but first run their `finally:` clause, which unlocks the
+repository / branch underneath -- a lock held by somebody else.  The Lean model
+has both the code as it is (`Branch.step`, with `branch_over_unlock_witness`)
+and the guarded variant of the proposed fix (`Branch.stepG`); branch_variant()
+probes which one the working tree implements and ties that one.
+
+Mutants this was built against (scratch worktree with the proposed fix applied,
+so that the baseline is clean; all caught, "oracle" = concrete failing input):
+  M1  CountedLock.unlock `elif self._lock_count == 1` -> `<= 2`            oracle
+  M2  CountedLock.lock_write: ReadOnlyError branch disabled                 oracle
+  M3  LockableFiles.unlock `if self._lock_count > 1` -> `> 2`              oracle
+  M4  LockableFiles.lock_write: validate_token(token) dropped               T2 (tie)
+  M5  LockableFiles.lock_read: nested lock not counted                      oracle
+  M6  PackRepository.lock_read `if not locked` -> always (fallbacks)        oracle (workflow)
+  M7  PackRepository.unlock `if not self.is_locked()` -> `if not self._write_lock_count`  oracle
+  M8  PackRepository.lock_write: ReadOnlyError check disabled               oracle
+  M9  BzrBranch.lock_write: repository not unlocked when the branch's own
+      lock_write fails (needs unlocked branch + wrong token)                oracle
+  M10 BzrBranch.unlock: repository unlocked on every nested unlock          oracle (workflow)
+  M11 PackRepository.lock_read under a write lock not counted               oracle (workflow)
+  M12 PackRepository.lock_write re-locks the fallbacks when already locked  oracle
+  M13 BzrBranch.lock_read re-locks the repository on nested calls           oracle (workflow)
+  M14 DirStateWorkingTree.unlock releases the branch only at the last unlock oracle (workflow)
+Harmless (stay clean): reordered assignments in CountedLock.lock_read,
+`== 0` -> `not`, `> 1` -> `>= 2`, `bool()` in is_locked, restructured took_lock.
 """
 import glob
 import itertools
@@ -659,10 +685,10 @@ FIXED = [
     dict(kind="lf", ext=True, ops=["wA", "w", "r", "u", "u", "w"]),
     dict(kind="lf", ext=True, ops=["w", "wB", "r", "wA", "u", "u"]),
     dict(kind="repo", ext=False, ops=["r", "w", "u", "w", "r", "u", "u", "u"]),
+    # the over-unlock witness (branch_over_unlock_witness) -- first, so that the replay is minimal
+    dict(kind="branch", ext=False, ops=["pr", "bu"]),
     dict(kind="branch", ext=False, ops=["br", "bw", "pw", "bu", "pu", "bwB", "bwA"]),
     dict(kind="branch", ext=True, ops=["bw", "bwA", "pr", "bu", "bu", "pu"]),
-    # the over-unlock witness (branch_over_unlock_witness)
-    dict(kind="branch", ext=False, ops=["pr", "bu"]),
 ]
 
 
@@ -677,7 +703,7 @@ def _subjects():
     return {k: v() for k, v in SUBJECTS.items()}
 
 
-def run(ctx, bounds=None):
+def run(ctx, bounds=None, tree=True):
     rng = ctx.rng
     subs = _subjects()
     cases, lines, outs = [], [], []
@@ -688,11 +714,33 @@ def run(ctx, bounds=None):
         lines.append(l)
         outs.append(o)
 
-    for c in _corpus():
-        if c["kind"] in subs:
-            one(c["kind"], c["ext"], c["ops"])
+    def guarded(kind, fn):
+        """the stack kinds need a real tree.  If building or driving it raises a lock
+        error (or an assertion of the locking code) the standard workflow itself --
+        create a 2a tree, commit, open the branch: nested lock_write / lock_read /
+        unlock calls -- fails on the real code: that is a violation with the workflow
+        as its input.  Anything else stays an infrastructure error, unless the
+        wrapper-level runs already found a violation (then the part is skipped)."""
+        from breezy import errors
+        try:
+            fn()
+        except (errors.LockError, AssertionError) as e:
+            ctx.violation(dict(kind="setup", part=kind),
+                          "standard locking workflow (create a 2a tree, commit, open, lock) fails on the real "
+                          "code with %s: %s" % (_exc(e), str(e)[:200]))
+            del cases[:], lines[:], outs[:]
+        except Exception as e:  # noqa
+            if not (ctx.violations or ctx.mismatches):
+                raise
+            ctx.extra.setdefault("skipped_after_violation", []).append("%s: %s" % (kind, _exc(e)))
+            del cases[:], lines[:], outs[:]
+
     bounds = bounds or dict(cl=ctx.pick(6, 7), lf=ctx.pick(6, 7), repo=ctx.pick(5, 6), branch=ctx.pick(4, 5))
-    for kind, L in bounds.items():
+
+    def part(kind, L):
+        for c in _corpus():
+            if c["kind"] == kind:
+                one(kind, c["ext"], c["ops"])
         alphabet = subs[kind].ops()
         for ext in (False, True):
             for ops in itertools.product(alphabet, repeat=L):
@@ -710,18 +758,36 @@ def run(ctx, bounds=None):
             one(kind, rng.random() < 0.4, ops)
         ctx.diff(cases, lines, outs)
         del cases[:], lines[:], outs[:]
+
+    for kind, L in bounds.items():
+        guarded(kind, lambda kind=kind, L=L: part(kind, L))
     ctx.exhaustive = True
     ctx.extra["exhaustive_lengths"] = bounds
     ctx.extra["branch_unlock_variant"] = _variant[0] if _variant else None
-    tree_stack(ctx, ctx.pick(300, 3000), ctx.pick(12, 25))
+    if tree:
+        guarded("tree", lambda: tree_stack(ctx, ctx.pick(300, 3000), ctx.pick(12, 25)))
 
 
 def widen(ctx):
-    run(ctx, bounds=dict(cl=7, lf=7, repo=6, branch=5))
+    """a tie broke with a clean oracle: one more exhaustive layer of the two basic wrappers"""
+    run(ctx, bounds=dict(cl=7, lf=7), tree=False)
 
 
 def replay(ctx, case):
     kind = case.get("kind")
+    if kind == "setup":
+        try:
+            wt = env.make_tree("2a")
+            wt.commit("one")
+            from breezy.branch import Branch
+            b = Branch.open(wt.branch.base)
+            b.lock_write()
+            b.unlock()
+            out = "ok"
+        except Exception as e:  # noqa
+            out = _exc(e) + ": " + str(e)[:200]
+            ctx.violation(case, "standard locking workflow fails: " + out)
+        return dict(case=case, impl=out, model=None, oracle_failures=[v["what"] for v in ctx.violations])
     if kind == "tree":
         base = env.make_tree("2a")
         base.commit("one")
